@@ -341,3 +341,24 @@ PROPS['C09'] = dict(
     technique='round-trip (print->parse) monitor + independent RFC 3339/9557 reader over exhaustive and boundary-biased values; release + debug-assertion builds',
     design_ref='DESIGN.md section 4, C09',
 )
+
+PROPS['C11'] = dict(
+    sub='c11',
+    prep=['synth'],
+    quick=[S('rel'), S('dbg')],
+    thorough=[S('rel'), S('dbg')],
+    rule='seeded (reference, span, smallest, largest|default, increment, mode) cases: references = civil date / civil datetime (biased to limits of months, leap days, midnight), zoned datetimes within +-2 days of transitions in a rotating 1/13 sample of the C03 corpus (+ all hand-written synthetic zones), '
+         'the days-are-24-hours marker, and no reference; spans with 1-4 units of one sign from tiny to thousands of days (and limit-biased ones); increments from the divisors of the next unit plus {0,-1,the unit size, non-divisors}; all 9 modes; sometimes units the reference does not permit. '
+         'Oracle (end-point conservation, jiff\'s own separately-monitored addition as the evaluation function): T = greedy balanced truncation of r..r+span found by binary search with checked_add only, lo = r+T, hi = r+(T + sign*inc*smallest); r + rounded must be the end chosen from the exact integers (x-lo, hi-lo) by the mode (half-even parity on the grid that is rounded); '
+         'plus: no unit above largest / below smallest, smallest a multiple of the increment, sign kept. total(unit) = greedy whole units + (x-lo)/(hi-lo) within 1e-12 relative; compare == ordering of r+a, r+b; to_duration == exact distance; r+(a+b) == (r+a)+b for civil/uniform references; calendar units without a reference must be refused. '
+         'distinct_nontrivial = distinct rounding cases whose r+span is strictly inside its window',
+    floors={'quick': {'rounds_ok': 1500000, 'zones': 60, 'zoned_cases': 400000}, 'thorough': {'rounds_ok': 40000000, 'zones': 300}},
+    assumptions=COMMON_ASSUME + TZ_ASSUME[2:3] + [
+        'no end-point verdict when the reference day of month is 29-31 and months/years are involved (clamping), when a window end lands in a gap/fold, or when a calendar smallest unit is rounded in increments > 1 with larger units present (Temporal rejects that configuration; jiff\'s result is on no single grid)',
+        'with weeks as the largest and days as the smallest unit relative to a civil reference the increment applies to the total number of days',
+        'errors are permitted when r+span or the result exceed the datetime range or the span unit limits'],
+    level_text='Metamorphic end-point monitoring of Span::round/total/compare/checked_add/to_duration in both build modes: every result is mapped back onto the time line with the (independently monitored) datetime addition and compared with the neighbour selected by exact integer arithmetic from a greedy truncation computed by binary search, independently of jiff\'s nudge/bubble code.',
+    level_note='Trusted base: jiff\'s checked_add (policed by C06/C08), arith.rs, the greedy search and pick_endpoint in harness/src/c11.rs; tzref.rs only to decide where no verdict is given.',
+    technique='metamorphic end-point conservation monitor with an independent greedy-search oracle; release + debug-assertion builds',
+    design_ref='DESIGN.md section 4, C11',
+)
